@@ -9,6 +9,8 @@ use nalgebra::{
   base::{Matrix as naMatrix, Storage, StorageMut},
   Dim, Scalar,
 };
+#[cfg(feature = "matrix")]
+use mech_core::matrix::Matrix;
 
 #[cfg(feature = "add_assign")]
 pub mod add_assign;
@@ -192,12 +194,25 @@ macro_rules! impl_op_assign_range_fxn_v {
     }  
   };}
 
+// A scalar index addresses one element (or one row). The range kernels take a
+// vector of indices, so a scalar index is handed to them as a vector of length one.
+pub fn op_assign_ixes(ixes: Vec<Value>) -> Vec<Value> {
+  ixes.into_iter().map(|ix| match ix {
+    #[cfg(feature = "vectord")]
+    Value::Index(ix) => Value::MatrixIndex(Matrix::DVector(Ref::new(DVector::from_vec(vec![*ix.borrow()])))),
+    #[cfg(all(feature = "matrix1", not(feature = "vectord")))]
+    Value::Index(ix) => Value::MatrixIndex(Matrix::Matrix1(Ref::new(Matrix1::from_element(*ix.borrow())))),
+    ix => ix,
+  }).collect()
+}
+
 //impl_set_range_arms
 #[macro_export]
 macro_rules! op_assign_range_fxn {
   ($op_fxn_name:tt, $fxn_name:ident) => {
     paste::paste! {
       fn $op_fxn_name(sink: Value, source: Value, ixes: Vec<Value>) -> MResult<Box<dyn MechFunction>> {
+        let ixes = op_assign_ixes(ixes);
         let arg = (sink.clone(), ixes.as_slice(), source.clone());
                      impl_assign_fxn!(impl_set_range_arms, $fxn_name, arg, u8, "u8")
         .or_else(|_| impl_assign_fxn!(impl_set_range_arms, $fxn_name, arg, u16, "u16"))
@@ -227,6 +242,7 @@ macro_rules! op_assign_range_all_fxn {
   ($op_fxn_name:tt, $fxn_name:ident) => {
     paste::paste! {
       fn $op_fxn_name(sink: Value, source: Value, ixes: Vec<Value>) -> MResult<Box<dyn MechFunction>> {
+        let ixes = op_assign_ixes(ixes);
         let arg = (sink.clone(), ixes.as_slice(), source.clone());
                      impl_assign_fxn!(impl_set_range_all_arms, $fxn_name, arg, u8, "u8")
         .or_else(|_| impl_assign_fxn!(impl_set_range_all_arms, $fxn_name, arg, u16, "u16"))
